@@ -103,3 +103,18 @@ Theorem C10_transparent_replace_all_histories : forall id i r rs ops,
                 (fresh_answers (SReplace i (r :: rs)) ops) 0 = 0.
 Proof. exact LinesCache.cached_replace_transparent_all. Qed.
 Print Assumptions C10_transparent_replace_all_histories.
+
+(* a CachedSource over a tree that itself contains (cold) CachedSource nodes: transparent for every
+   history whose map/stream calls use one option set (text views, hash, clones unrestricted); for
+   histories mixing option sets the statement is FALSE of model and code - known finding K2
+   (ColdCacheRoot.cached_root_two_keys_counterexample) *)
+From RS Require Proofs.ColdCache Proofs.ColdCacheTree Proofs.ColdCacheRoot.
+Theorem C10_transparent_nested_caches_one_key : forall id a k,
+  ColdCache.ids_distinct (SCached id a) ->
+  RStreamTree.rshape (ColdCache.uncache a) = true -> treeA a = true -> RStreamTree.rsmall (ColdCache.uncache a) = true ->
+  ColdCacheTree.streams_map (ColdCache.uncache a) = true ->
+  (forall c f, forallb mapping_small (chunk_mappings (CacheReplay.evs_of (ColdCache.uncache a) c f)) = true) ->
+  forall ops, Forall (ColdCacheRoot.on_key k) ops ->
+  answers_equiv (source a) ops (fst (run_hops [] (SCached id a) ops)) (fresh_answers a ops) 0 = 0.
+Proof. exact ColdCacheRoot.cached_root_transparent_same_key. Qed.
+Print Assumptions C10_transparent_nested_caches_one_key.
